@@ -11,11 +11,14 @@ import (
 	"github.com/pyroscope-io/pyroscope/pkg/storage/segment"
 	"verifharness/lib"
 	"verifharness/lib/segu"
+	"verifharness/lib/stor"
 )
 
 type Input struct {
 	Writes  []segu.Write `json:"writes"`
 	Queries []segu.Query `json:"queries"`
+	// Stor: when non-empty the case is a storage-level history (stor.go) instead of a segment-level one
+	Stor []stor.Op `json:"stor,omitempty"`
 }
 
 func allRanges(lo, size int64) []segu.Query {
@@ -29,6 +32,9 @@ func allRanges(lo, size int64) []segu.Query {
 }
 
 func gen(r *rand.Rand, idx int, tier string) Input {
+	if idx%6 == 5 {
+		return genStor(r, idx, tier)
+	}
 	var in Input
 	// window size: 12..1200 slots
 	var size int64
@@ -243,6 +249,9 @@ func enum(tier string) []Input {
 }
 
 func run(in Input) lib.Result {
+	if len(in.Stor) > 0 {
+		return runStor(in)
+	}
 	s := segment.New()
 	ws := make([]string, len(in.Writes))
 	maxSpan, crossings := int64(0), 0
@@ -287,7 +296,7 @@ func run(in Input) lib.Result {
 		}
 	}
 	nodes, levels, present := segu.TreeStats(dump)
-	coq := "{| c_writes := " + lib.List(ws) + "; c_tree := " + segu.CoqTree(dump) + "; c_queries := " + lib.List(qs) + " |}"
+	coq := "(SegCase {| c_writes := " + lib.List(ws) + "; c_tree := " + segu.CoqTree(dump) + "; c_queries := " + lib.List(qs) + " |})"
 	return lib.Result{
 		Coq:        coq,
 		NonTrivial: (maxSpan > 10 || crossings > 0) && cuts,
@@ -323,7 +332,12 @@ func cutsPresent(n *segment.VerifNode, q segu.Query) bool {
 }
 
 func main() {
-	lib.Main(lib.Harness[Input]{Prop: "C03", Quick: 500, Thorough: 3000, Gen: gen, Enum: enum, Run: run})
+	defer func() {
+		if store != nil {
+			store.Destroy()
+		}
+	}()
+	lib.Main(lib.Harness[Input]{Prop: "C03", Quick: 600, Thorough: 3600, Gen: gen, Enum: enum, Run: run})
 }
 
 func zonesMixed(in Input) bool {
